@@ -188,7 +188,7 @@ class StaticAllocs(RewritePattern):
 
         current_address = self.current_addresses[memory]
 
-        if current_address % alignment != 0:
+        if alignment > 0 and current_address % alignment != 0:
             # align the address
             current_address += alignment - (current_address % alignment)
 
